@@ -23,6 +23,7 @@ import (
 	"github.com/jamf/regatta/storage/kv"
 	"github.com/jamf/regatta/storage/table"
 	"github.com/jamf/regatta/storage/table/fsm"
+	"github.com/jamf/regatta/verifvp/vp"
 	sm "github.com/lni/dragonboat/v4/statemachine"
 	"google.golang.org/grpc"
 
@@ -568,6 +569,176 @@ func runPIT(c Case) (vs []viol, outcome string, writes int) {
 	return vs, fmt.Sprintf("declared=%d pairs=%d", declared, len(got)), hw.n
 }
 
+// runStreamPIT: the leader side of a follower recovery, SnapshotServer.Stream on a real engine, with
+// leader writes (a put in front of all keys, an overwrite, a delete: three log entries) landing
+// before its k-th executed statement, for EVERY k - the statements of Stream itself, of the FSM's
+// Lookup and of commandSnapshot. The stream's pairs must be the table's content at exactly the index
+// its closing command declares.
+func runStreamPIT(r *evid.Run, e *engx.Engine) {
+	total := -1
+	for k := 0; total < 0 || k <= total; k++ {
+		if r.Expired() {
+			r.Cap("deadline in the stream point-in-time part")
+			break
+		}
+		cs := Case{Kind: "stream-pit", J: k}
+		vs, outcome, n, inc := streamPITOne(e, k)
+		if inc {
+			r.Inconcl.Add(1)
+			if total < 0 {
+				return
+			}
+			continue
+		}
+		if total < 0 {
+			total = n // k = 0: no write, the number of executed statements
+			r.Extra("stream_pit_statement_points", n)
+		}
+		r.Outcome(outcome, true)
+		r.AddExtra("stream_pit_runs", 1)
+		for _, v := range vs {
+			r.Violate(v.sig, v.detail, cs)
+		}
+	}
+}
+
+var tableSeq atomic.Int64
+
+// streamPITOne: one Stream call with the writes landing before its k-th executed statement (k = 0:
+// never); n is the number of statements executed.
+func streamPITOne(e *engx.Engine, k int) (vs []viol, outcome string, n int, inconclusive bool) {
+	var busy, inStream atomic.Bool
+	name := fmt.Sprintf("pit%d", tableSeq.Add(1))
+	if err := retryCAS(func() error { _, err := e.CreateTable(name); return err }); err != nil {
+		return nil, "", 0, true
+	}
+	defer func() { _ = e.DeleteTable(name) }()
+	if err := e.WaitTable(name, 20*time.Second); err != nil {
+		return nil, "", 0, true
+	}
+	contents := map[uint64]string{}
+	record := func(rev uint64) {
+		ctx, cancel := context.WithTimeout(context.Background(), 20*time.Second)
+		defer cancel()
+		seq, err := e.IterateRange(ctx, &regattapb.RangeRequest{Table: []byte(name), Key: []byte{0}, RangeEnd: []byte{0}, Linearizable: true})
+		if err != nil {
+			return
+		}
+		var all []*regattapb.KeyValue
+		seq(func(rr *regattapb.RangeResponse) bool { all = append(all, rr.Kvs...); return true })
+		contents[rev] = kvsStr(all)
+	}
+	put := func(k, v string) bool {
+		ctx, cancel := context.WithTimeout(context.Background(), 20*time.Second)
+		defer cancel()
+		res, err := e.Put(ctx, &regattapb.PutRequest{Table: []byte(name), Key: []byte(k), Value: []byte(v)})
+		if err != nil {
+			return false
+		}
+		record(res.Header.Revision)
+		return true
+	}
+	if !(put("k00", "v0") && put("k01", "v1") && put("k02", "v2")) {
+		return nil, "", 0, true
+	}
+	wrote := true
+	vp.Hook = func(label string) {
+		if !inStream.Load() || busy.Load() {
+			return
+		}
+		if !strings.HasPrefix(label, "replication.go:") && !strings.HasPrefix(label, "fsm.go:") && !strings.HasPrefix(label, "query.go:") {
+			return
+		}
+		n++
+		if n != k {
+			return
+		}
+		busy.Store(true)
+		defer busy.Store(false)
+		wrote = put("a-new", "x") && put("k00", "changed")
+		if wrote {
+			ctx, cancel := context.WithTimeout(context.Background(), 20*time.Second)
+			res, err := e.Delete(ctx, &regattapb.DeleteRangeRequest{Table: []byte(name), Key: []byte("k01")})
+			cancel()
+			if wrote = err == nil; wrote {
+				record(res.Header.Revision)
+			}
+		}
+	}
+	rs := &recStream{ctx: context.Background()}
+	inStream.Store(true)
+	err := (&regattaserver.SnapshotServer{Tables: e.Engine}).Stream(&regattapb.SnapshotRequest{Table: []byte(name)}, rs)
+	inStream.Store(false)
+	vp.Hook = nil
+	if !wrote {
+		return nil, "", n, true
+	}
+	if err != nil {
+		return []viol{{"stream-pit/stream-error", err.Error()}}, "", n, false
+	}
+	pairs, declared, perr := parseStream(rs.buf.Bytes())
+	outcome = fmt.Sprintf("stream-pit k=%d declared=%d pairs=%s", k, declared, pairs)
+	want, known := contents[declared]
+	switch {
+	case perr != nil:
+		vs = append(vs, viol{"stream-pit/stream-unreadable", perr.Error()})
+	case !known:
+		vs = append(vs, viol{"stream-pit/declared-index-is-no-revision-of-the-table", fmt.Sprintf("declared %d; writes landed before statement %d", declared, k)})
+	case pairs != want:
+		vs = append(vs, viol{"stream-pit/stream-content-not-the-state-at-declared-index", fmt.Sprintf("declared index %d: streamed %s, the table held %s at that index; writes landed before executed statement %d of Stream/Lookup/commandSnapshot", declared, pairs, want, k)})
+	}
+	return vs, outcome, n, false
+}
+
+// parseStream reads the bytes of a snapshot stream message-wise: PUT commands, then one DUMMY command
+// declaring the leader index.
+func parseStream(raw []byte) (pairs string, declared uint64, err error) {
+	f, err := os.CreateTemp("", "verif-c07-pit-*.bin")
+	if err != nil {
+		return "", 0, err
+	}
+	defer os.Remove(f.Name())
+	if _, err := f.Write(raw); err != nil {
+		return "", 0, err
+	}
+	_ = f.Close()
+	sf, err := snapshot.OpenFile(f.Name())
+	if err != nil {
+		return "", 0, err
+	}
+	defer sf.Close()
+	var kvs []*regattapb.KeyValue
+	buf := make([]byte, 4<<20)
+	closed := false
+	for {
+		n, err := sf.Read(buf)
+		if err == io.EOF {
+			break
+		}
+		if err != nil {
+			return "", 0, err
+		}
+		cmd := &regattapb.Command{}
+		if err := cmd.UnmarshalVT(buf[:n]); err != nil {
+			return "", 0, err
+		}
+		switch {
+		case closed:
+			return "", 0, fmt.Errorf("a command follows the closing command")
+		case cmd.Type == regattapb.Command_PUT && cmd.Kv != nil:
+			kvs = append(kvs, &regattapb.KeyValue{Key: append([]byte(nil), cmd.Kv.Key...), Value: append([]byte(nil), cmd.Kv.Value...)})
+		case cmd.Type == regattapb.Command_DUMMY && cmd.LeaderIndex != nil:
+			declared, closed = *cmd.LeaderIndex, true
+		default:
+			return "", 0, fmt.Errorf("unexpected command of type %v in the stream", cmd.Type)
+		}
+	}
+	if !closed {
+		return "", 0, fmt.Errorf("the stream has no closing command declaring the index")
+	}
+	return kvsStr(kvs), declared, nil
+}
+
 func sizeSeqs(classes []int, maxN int) [][]int {
 	out := [][]int{{}}
 	var rec func(cur []int)
@@ -735,10 +906,13 @@ func Run(r *evid.Run) {
 			}
 		}
 	}
+	// point-in-time at engine level: leader writes land before every statement of the real Stream
+	runStreamPIT(r, eng)
+	r.Rule("(stream point-in-time) the real SnapshotServer.Stream on a real engine holding three pairs, with three leader writes (put in front, overwrite, delete) landing before its k-th executed statement for EVERY k (statements of Stream, FSM.Lookup and commandSnapshot): the streamed pairs must be the table's content at exactly the index the closing command declares")
 	r.Sample(Case{Kind: "manager", Sizes: []int{40, 300, 1}, MaxInMem: 1000, Prepop: false})
 	r.Sample(Case{Kind: "backup", Sizes: []int{40, 300, 0}, Corrupt: "middle"})
 	r.Assume("single-node engines on in-memory file systems; waits are 'poll until condition or generous deadline', a missed deadline counts as inconclusive, never as pass or violation")
-	r.Assume("the point-in-time clause is decided at FSM level (a write applied from inside Lookup(SnapshotRequest) after every output write); the engine-level captures run without concurrent writes")
+	r.Assume("the point-in-time clause is decided at FSM level (a write applied from inside Lookup(SnapshotRequest) after every output write) and at engine level with writes landing at statement boundaries of Stream/Lookup/commandSnapshot; the other engine-level captures run without concurrent writes")
 	_ = io.EOF
 	_ = strings.Join
 }
@@ -758,6 +932,8 @@ func Replay(raw json.RawMessage) (string, bool) {
 	switch c.Kind {
 	case "pit":
 		vs, outcome, _ = runPIT(c)
+	case "stream-pit":
+		vs, outcome, _, _ = streamPITOne(eng, c.J)
 	case "manager":
 		vs, outcome, _ = runManager(eng, c)
 	case "backup":
